@@ -198,12 +198,12 @@ def _grouped_or_aggregated(feature, grouped):
     return all(_grouped_or_aggregated(child, grouped) for _, child in dslgen.children(feature) if dslgen.is_feature(child))
 
 
-def forml_rows(ast, conn, rename=None):
+def forml_rows(ast, conn, rename=None, split=False):
     """Build with the real DSL, parse with the real alchemy parser, execute."""
     from forml.provider.feed.reader import alchemy
     from vlib import dslgen
 
-    statement = dslgen.build(ast, rename=rename)
+    statement = dslgen.build(ast, rename=rename, split=split)  # split: a top-level AND of where / having as successive calls
     with alchemy.Parser(dslgen.alchemy_sources(), {}) as visitor:
         statement.accept(visitor)
         selectable = visitor.fetch()
@@ -308,6 +308,10 @@ def check_statement(ctx, engines, raw, data, datakey, share_names=None):
     if rename:
         ctx.count('shared_reference_name_cases')
         witness['rename'] = rename
+    split = core.subseed(1, sig) % 2 == 0 and ast[0] == 'query' and any(c is not None and c[0] == 'and' for c in (ast[3], ast[5]))
+    if split:
+        ctx.count('split_filter_cases')
+        witness['split'] = True
     engines.load(data, datakey)
     for name, conn in engines.conns.items():
         if only is not None and name not in only:
@@ -330,7 +334,7 @@ def check_statement(ctx, engines, raw, data, datakey, share_names=None):
             ctx.note_set('oracle_disagreement_samples', {'sql': mine_sql[:300], 'engine': name}, cap=5)
             continue
         try:
-            theirs, their_sql = forml_rows(ast, conn, rename)
+            theirs, their_sql = forml_rows(ast, conn, rename, split)
         except Exception as err:  # pylint: disable=broad-except
             try:
                 conn.rollback()
@@ -695,6 +699,13 @@ def _directed():
          g.query(g.reference(a, 'rs'), select=(g.column('rs', 'x'),), where=g.cmp('>', g.column('rs', 'y'), g.lit(0))), 'union'),
         ('set', g.query(g.reference(a, 'rt'), select=(g.column('rt', 'y'),), where=g.cmp('>', g.column('rt', 'x'), g.lit(1))),
          g.query(g.reference(a, 'rt'), select=(g.column('rt', 'x'),)), 'difference'),
+        # conjunctions issued as successive .where / .having calls (split build) with a bare equality on either side
+        g.query(a, select=(g.column('A', 'x'), g.column('A', 's')),
+                where=g.and_(g.cmp('>', g.column('A', 'x'), g.lit(0)), g.cmp('==', g.column('A', 'y'), g.lit(1)))),
+        g.query(a, select=(g.column('A', 'x'), g.column('A', 's')),
+                where=g.and_(g.cmp('==', g.column('A', 'y'), g.lit(0)), g.cmp('>', g.column('A', 'x'), g.lit(1)))),
+        g.query(a, select=(g.column('A', 'y'), g.alias(g.agg('count', g.column('A', 'x')), 'n')), groupby=(g.column('A', 'y'),),
+                having=g.and_(g.cmp('>', g.agg('count', g.column('A', 'x')), g.lit(0)), g.cmp('==', g.column('A', 'y'), g.lit(0)))),
         # two different references (built under one shared name where they are never visible together)
         ('set', g.query(g.reference(a, 'u1'), select=(g.column('u1', 'x'),)),
          g.query(g.reference(b, 'u2'), select=(g.column('u2', 'x'),)), 'union'),
@@ -758,6 +769,6 @@ def replay(ctx, witness):
     engines = Engines()
     try:
         data = {k: [tuple(r) for r in v] for k, v in witness['data'].items()}
-        check_statement(ctx, engines, dslgen.norm(witness['ast']), data, 'replay', share_names=bool(witness.get('rename')))
+        check_statement(ctx, engines, dslgen.norm(witness['ast']), data, 'replay', share_names=bool(witness.get('rename')))  # (split builds are re-derived from the statement signature)
     finally:
         engines.close()
